@@ -40,14 +40,42 @@ func c20Parse() ([]c20Type, error) {
 	if err != nil {
 		return nil, err
 	}
+	// the types are those declared in types.go; their constants are collected from every file of the package (a
+	// constant of a generated type declared elsewhere must print its name too)
+	inTypesGo := map[string]bool{}
+	for _, d := range f.Decls {
+		if gd, ok := d.(*ast.GenDecl); ok && gd.Tok == token.TYPE {
+			for _, sp := range gd.Specs {
+				inTypesGo[sp.(*ast.TypeSpec).Name.Name] = true
+			}
+		}
+	}
+	files := []*ast.File{f}
+	ents, _ := os.ReadDir(repoRoot)
+	for _, e := range ents {
+		n := e.Name()
+		if e.IsDir() || !strings.HasSuffix(n, ".go") || strings.HasSuffix(n, "_test.go") || n == "types.go" {
+			continue
+		}
+		src, err := os.ReadFile(filepath.Join(repoRoot, n))
+		if err != nil || bytes.Contains(src, []byte("//go:build")) {
+			continue
+		}
+		if pf, err := parser.ParseFile(fset, filepath.Join(repoRoot, n), src, 0); err == nil {
+			files = append(files, pf)
+		}
+	}
 	conf := types.Config{Importer: importer.Default(), Error: func(error) {}}
-	pkg, _ := conf.Check("fit", fset, []*ast.File{f}, nil)
+	pkg, _ := conf.Check("fit", fset, files, nil)
 	if pkg == nil {
-		return nil, fmt.Errorf("type check of types.go failed")
+		return nil, fmt.Errorf("type check of the package failed")
 	}
 	byName := map[string]*c20Type{}
 	scope := pkg.Scope()
 	for _, n := range scope.Names() {
+		if !inTypesGo[n] {
+			continue
+		}
 		if tn, ok := scope.Lookup(n).(*types.TypeName); ok {
 			if b, ok := tn.Type().Underlying().(*types.Basic); ok && b.Info()&types.IsInteger != 0 {
 				bits := map[types.BasicKind]int{types.Uint8: 8, types.Int8: 8, types.Uint16: 16, types.Int16: 16, types.Uint32: 32, types.Int32: 32, types.Uint64: 64, types.Int64: 64}[b.Kind()]
@@ -301,7 +329,7 @@ func init() {
 		ID:      "C20",
 		Level:   "exploration",
 		Workers: 1,
-		Rule: "every integer type declared in types.go (extracted with go/types) and every constant of it: a generated program calls String() on all 256 values of 8-bit types, all 65536 values of 16-bit types, and for wider types on every constant and its neighbours, every value below 2^16, every power of two and its neighbours, and values sharing their low 16 bits with a constant (thorough tier: all 2^32 values of every 32-bit type); expected = constant name without the type prefix (any of the names sharing the value), otherwise Type(n). " +
+		Rule: "every integer type declared in types.go (extracted with go/types) and every constant of it declared anywhere in the package: a generated program calls String() on all 256 values of 8-bit types, all 65536 values of 16-bit types, and for wider types on every constant and its neighbours, every value below 2^16, every power of two and its neighbours, and values sharing their low 16 bits with a constant (thorough tier: all 2^32 values of every 32-bit type); expected = constant name without the type prefix (any of the names sharing the value), otherwise Type(n). " +
 			"Regeneration: the repository's fitstringer is run (through a driver placed by build overlay) on the sorted type list of types.go and its output compared byte-for-byte with the checked-in types_string.go. distinct = values that are named constants",
 		Assumptions: []string{"Bool (types_man.go) is hand-written and outside the statement"},
 		Run:         runC20,
